@@ -873,6 +873,21 @@ struct Cand {
     cur: Vec<f64>,
     score: f64,
     hist: Option<Rc<Hist>>,
+    /// the (step ratio, rejections of the current loop) pairs the histories merged into this candidate may have (only
+    /// followed while the replayed random stream is in use; one constant pair otherwise)
+    rr: Vec<(f64, u64)>,
+}
+
+/// StandardBasis::set_sampled as the source computes it: value + (step * (max - min)) * g, clamped by set_value
+fn predicted_value(b: f64, lo: f64, hi: f64, step: f64, g: f64) -> f64 {
+    let v = b + step * (hi - lo) * g;
+    if v < lo {
+        lo
+    } else if v > hi {
+        hi
+    } else {
+        v
+    }
 }
 
 #[derive(Default)]
@@ -975,13 +990,17 @@ pub fn monitor(run: &Run) -> (Vec<Finding>, Stats) {
     // differently from the replay (which the properties do not forbid; the correspondence run reports it): the
     // inference is then redone from the score() calls alone and nothing below is concluded from the replayed draws.
     let mut use_stream = true;
+    // proposals whose direction and size the replayed sample explains (an over-count when several held states are open)
+    let mut validated: u64;
     let mut cands: Vec<Cand>;
+    let mut finals: Vec<Cand>;
     let mut truncated;
     let mut inconclusive;
     'infer: loop {
-    cands = vec![Cand { cur: c0.vec.clone(), score: s0, hist: None }];
+    cands = vec![Cand { cur: c0.vec.clone(), score: s0, hist: None, rr: vec![(1., 0)] }];
     truncated = false;
     inconclusive = false;
+    validated = 0u64;
     for k in 1..=steps_done {
         let call = &run.calls[k as usize];
         if call.score.is_none() {
@@ -994,6 +1013,33 @@ pub fn monitor(run: &Run) -> (Vec<Finding>, Stats) {
             .get((k - 1) as usize)
             .and_then(|d| run.handles.get(d.0))
             .map(|h| h.0);
+        // the step ratio after this step along a history (the source's update at the end of each inner loop)
+        let end_of_step = |ratio: f64, rej: u64, rejected: bool| -> (f64, u64) {
+            if !use_stream {
+                return (1., 0);
+            }
+            let rej = rej + if rejected { 1 } else { 0 };
+            if inner > 0 && k % inner == 0 {
+                let mut r = ratio;
+                if r > 1e-4 {
+                    r *= s.inner_eff() as f64 / (rej as f64 + 1.);
+                    r = f64::min(r, 1.);
+                }
+                (r, 0)
+            } else {
+                (ratio, rej)
+            }
+        };
+        let dedup_rr = |v: Vec<(f64, u64)>| -> Vec<(f64, u64)> {
+            let mut out: Vec<(f64, u64)> = vec![];
+            for x in v.into_iter() {
+                if !out.iter().any(|y| same(y.0, x.0) && y.1 == x.1) {
+                    out.push(x);
+                }
+            }
+            out
+        };
+        let mut step_validated = false;
         for pass in 0..2 {
             if pass == 0 && !use_stream {
                 continue;
@@ -1003,12 +1049,28 @@ pub fn monitor(run: &Run) -> (Vec<Finding>, Stats) {
                 if hd > 1 {
                     continue;
                 }
-                if pass == 0 && hd == 1 {
-                    // first pass: only states from which the proposal changes the drawn parameter
-                    let changed = call.vec.iter().zip(c.cur.iter()).position(|(x, y)| !same(*x, *y));
-                    if changed != drawn_cell {
+                let mut rr = c.rr.clone();
+                if pass == 0 {
+                    // first pass: only held states from which the replayed draw gives EXACTLY this proposal (the drawn
+                    // handle's parameter moved to clamp(value + (max_step * ratio * range) * g), bit for bit, the ratio
+                    // being one this history can have led to)
+                    match run.draws.get((k - 1) as usize) {
+                        Some(d) if d.0 < run.handles.len() => {
+                            let (hc, lo, hi) = run.handles[d.0];
+                            rr.retain(|(ratio, _)| {
+                                let mut pv = c.cur.clone();
+                                if hc < pv.len() {
+                                    pv[hc] = predicted_value(pv[hc], lo, hi, s.max_step * ratio, d.1);
+                                }
+                                hamming(&pv, &call.vec) == 0
+                            });
+                        }
+                        _ => rr.clear(),
+                    }
+                    if rr.is_empty() {
                         continue;
                     }
+                    step_validated = true;
                 }
                 // accepted branch
                 if let Some(sc) = call.score {
@@ -1016,21 +1078,38 @@ pub fn monitor(run: &Run) -> (Vec<Finding>, Stats) {
                         cur: call.vec.clone(),
                         score: sc,
                         hist: Some(Rc::new(Hist { step: k, accepted: true, ambiguous: std::cell::Cell::new(false), deep: std::cell::Cell::new(false), prev: c.hist.clone() })),
+                        rr: dedup_rr(rr.iter().map(|&(r, j)| end_of_step(r, j, false)).collect()),
                     });
                 }
                 next.push(Cand {
                     cur: c.cur.clone(),
                     score: c.score,
                     hist: Some(Rc::new(Hist { step: k, accepted: false, ambiguous: std::cell::Cell::new(false), deep: std::cell::Cell::new(false), prev: c.hist.clone() })),
+                    rr: dedup_rr(rr.iter().map(|&(r, j)| end_of_step(r, j, true)).collect()),
                 });
             }
             if !next.is_empty() {
+                if step_validated {
+                    validated += 1;
+                }
                 if pass == 1 && use_stream {
+                    if std::env::var("VH_DEBUG_DESYNC").is_ok() {
+                        let d = run.draws[(k - 1) as usize];
+                        eprintln!("DESYNC step {} inner {} draw {:?} handle {:?} call {:?}", k, inner, d, run.handles.get(d.0), call.vec);
+                        for c in cands.iter() {
+                            eprintln!("   cand cur {:?} score {:?} rr {:?}", c.cur, c.score, c.rr);
+                        }
+                    }
                     use_stream = false;
                     continue 'infer;
                 }
                 break;
             }
+        }
+        if next.is_empty() && use_stream {
+            // the pruning by the replayed stream may have dropped the true history
+            use_stream = false;
+            continue 'infer;
         }
         if next.is_empty() {
             add(
@@ -1045,10 +1124,15 @@ pub fn monitor(run: &Run) -> (Vec<Finding>, Stats) {
         // dedupe on (cur, score)
         let mut ded: Vec<Cand> = vec![];
         for c in next.into_iter() {
-            match ded.iter().find(|d| hamming(&d.cur, &c.cur) == 0 && same(d.score, c.score)) {
+            match ded.iter_mut().find(|d| hamming(&d.cur, &c.cur) == 0 && same(d.score, c.score)) {
                 Some(d) => {
                     if !merge_mark(&d.hist, &c.hist) {
                         inconclusive = true;
+                    }
+                    for x in c.rr.iter() {
+                        if d.rr.len() < 4096 && !d.rr.iter().any(|y| same(y.0, x.0) && y.1 == x.1) {
+                            d.rr.push(*x);
+                        }
                     }
                 }
                 None => ded.push(c),
@@ -1064,11 +1148,8 @@ pub fn monitor(run: &Run) -> (Vec<Finding>, Stats) {
         }
         cands = ded;
     }
-    break;
-    }
-    stats.stream_desync = !use_stream;
     // the end: the returned state, and the final assertion's call, must be the held state
-    let mut finals: Vec<Cand> = cands
+    finals = cands
         .iter()
         .filter(|c| hamming(&c.cur, &final_vec) == 0)
         .cloned()
@@ -1077,6 +1158,15 @@ pub fn monitor(run: &Run) -> (Vec<Finding>, Stats) {
         let last = &run.calls[(ncalls - 1) as usize];
         finals.retain(|c| hamming(&c.cur, &last.vec) == 0);
     }
+    if finals.is_empty() && use_stream {
+        use_stream = false;
+        continue 'infer;
+    }
+    break;
+    }
+    stats.stream_desync = !use_stream;
+    // conclusions from the replayed thresholds need a stream that demonstrably explains the run
+    let thresholds_known = use_stream && validated >= 6;
     if finals.is_empty() && truncated {
         stats.ambiguous_end = true;
         return (f, stats);
@@ -1225,7 +1315,7 @@ pub fn monitor(run: &Run) -> (Vec<Finding>, Stats) {
                                 what: format!("proposal {} (loop {}) is worse ({:?} < {:?}) and was accepted at zero temperature", k, lp + 1, new, sc),
                             });
                         }
-                    } else if kt > 0. && use_stream {
+                    } else if kt > 0. && thresholds_known {
                         let p = f64::exp((new - sc) / kt);
                         let band = 1e-9;
                         if (thr - p).abs() <= 1e-4 * p {
